@@ -298,6 +298,16 @@ func TestVerifC12(t *testing.T) {
 			cs.inconclusive("assets.DefaultClassifier hook not registered")
 			return
 		}
+		// an earlier instance is used and extended first: every DefaultClassifier()
+		// result must stand on its own
+		first, err := VDefaultClassifier()
+		if err != nil {
+			cs.violation("default-classifier-error", "%v", err)
+			return
+		}
+		first.AddContent("License", "VerifExtra", "license.txt", []byte("zqverif zqextra zqdocument zqadded zqto zqthe zqfirst zqinstance zqonly"))
+		first.Normalize([]byte("zqsome zqnew zqwords for the dictionary"))
+		first.Match([]byte("zqverif zqextra zqdocument zqadded zqto zqthe zqfirst zqinstance zqonly"))
 		dc, err := VDefaultClassifier()
 		if err != nil {
 			cs.violation("default-classifier-error", "%v", err)
